@@ -68,6 +68,7 @@ func (e *Embed) GenerateOutput(textOnly bool) string {
 	// TODO: Maybe just to be save we should sanitize it.
 	tagName := dom.TagName(e.Element)
 	if tagName == "blockquote" || tagName == "iframe" {
+		dom.RemoveNodes(dom.GetAllNodesWithTag(e.Element, "script", "style"), nil)
 		domutil.StripAttributes(e.Element)
 		dom.AppendChild(embed, e.Element)
 	}
